@@ -54,6 +54,11 @@ class BuildError(Exception):
     pass
 
 
+class StopCheck(Exception):
+    """raised by Check.require after recording a failure: the run cannot continue meaningfully"""
+    pass
+
+
 class Lock:
     """Process-level lock so that concurrent checks do not race on shared build output."""
     def __init__(self, name):
@@ -172,6 +177,13 @@ class Check:
     def fail(self, key, what, replay):
         """Impl violates Spec on a concrete input. key = classifier slug (matched against known findings)."""
         self.failures.append({"key": key, "what": what, "replay": replay})
+
+    def require(self, cond, key, what, replay=None):
+        """a precondition of the scenario that the implementation must satisfy (e.g. a plain valid PUT succeeds);
+        when it does not, that is itself a failing input: record it and stop the run."""
+        if not cond:
+            self.fail(key, what, replay or {"what": what})
+            raise StopCheck(what)
 
     def count(self, cls, n=1):
         self.dist[cls] = self.dist.get(cls, 0) + n
